@@ -174,6 +174,18 @@ PROPS = {
         "assumptions": COMMON_ASSUMPTIONS,
         "explanation": "heartbeat timed model theorems + hb correspondence",
     },
+    "C16": {
+        "level": "proof",
+        "lean_modules": ["AnyTLS.Props.C16"],
+        "groups": [{"group": "socks", "quick_cases": 1500, "thorough_cases": 20000},
+                   {"group": "e2e", "only": "early,refused", "quick_cases": 0, "thorough_cases": 30}],
+        "rule": "socks cases over real loopback TCP pairs: fixed = every method list of length <= 3 over {0,1,2,0x80,0xFF}, all 256 command codes, all 256 address-type bytes, versions {0,4,6,255}, and the whole front-end (real server + target) for commands {1,2,3,0,9} x target up/down, early bytes, multi-method and refused greetings; "
+                "generated = greetings (versions, 0..255 methods, truncations, trailing bytes), requests (commands, reserved byte, all address types, domain lengths {0,1,2,9,63,255}, non-UTF-8 names, truncations, trailing bytes) and, in the thorough tier, more whole-front-end runs; non-trivial = every case; distinct by SHA-1 of the op line",
+        "level_text": "kernel-checked theorems over all byte strings: 'no authentication' is selected exactly when a complete version-5 greeting offers it and refused with 05 FF exactly when it does not (method_selection, refusal_iff), a verdict is stable under extension of the input, i.e. independent of TCP segmentation (greeting_prefix_stable), the wire image of every request (every command byte, address type, domain length 1..255, port) parses back to exactly that request (request_roundtrip), a tunnel is established only for CONNECT (connect_only), 'succeeded' is written exactly when the tunnel open succeeded and nothing request-related is replied before (reply_follows_open), a connection's behaviour depends on its own bytes only (connection_local). Tied to the code by the socks differential run of the real parsers and of the whole front-end",
+        "level_note": "trusted: Lean kernel, harness+driver glue; the parsers take a concrete TcpStream, so they are driven over real loopback sockets (end of input = half-close); read_exact makes the result independent of segmentation; the tunnel open itself is C10/C07",
+        "assumptions": COMMON_ASSUMPTIONS,
+        "explanation": "SOCKS5 model theorems + socks correspondence + e2e",
+    },
 }
 
 NOT_YET = {}
